@@ -30,7 +30,7 @@ type c19Witness struct {
 func init() {
 	core.Register(&core.Check{
 		ID:   "C19",
-		Rule: "schemas: C12's list (C01 atoms/pairs/wraps + formats, patterns, ill-formed bounds, discriminators) and random trees; values: universe/directed/format values in which every string leaf is replaced by a distinct 24-character marker (absent from every schema), plus values that nest markers beside the failing part; modes default and MultiErrors, with and without the reason-only customiser; odd shards run with SchemaErrorDetailsDisabled=true (process-global) and also assert on Error(). Request level (even shards, details on): documents with one constraint per location (path, query, header, cookie, JSON body, form body, response body, response header; 15 constraint kinds; one location at a time, all at once, PRNG-drawn mixes) are validated by ValidateRequest and ValidateResponse with MultiError on/off and with/without Options.WithCustomSchemaErrorFunc(reason-only); every SchemaError reached has a marker-free Reason, with the function installed every SchemaError's Error() and (when no ParseError is involved) the whole returned message are marker-free. Distinct = (canonical schema, marked value) rejected with at least one marker present; non-trivial = at least one SchemaError with a non-empty Reason was inspected.",
+		Rule: "schemas: C12's list (C01 atoms/pairs/wraps + formats, patterns, ill-formed bounds, discriminators) and random trees; values: universe/directed/format values in which every string leaf is replaced by a distinct 24-character marker (absent from every schema), plus values that nest markers beside the failing part; modes default and MultiErrors, with and without the reason-only customiser; odd shards run with SchemaErrorDetailsDisabled=true (process-global) and also assert on Error(). Request level (even shards, details on): documents with one constraint per location (path, query, header, cookie, JSON body, form body, response body, response header; 15 constraint kinds; one location at a time, all at once, PRNG-drawn mixes) are validated by ValidateRequest and ValidateResponse with MultiError on/off and with/without Options.WithCustomSchemaErrorFunc(reason-only); every SchemaError reached has a marker-free Reason, with the function installed every SchemaError's Error() and (when no ParseError is involved) the whole returned message are marker-free. Distinct = (canonical schema, marked value) rejected with at least one marker present; non-trivial = at least one SchemaError with a non-empty Reason was inspected. Every value is also passed with its string lists as []string; request level: one Options value used plain, then with a message function, then with another.",
 		Assumptions: []string{
 			"object keys are not value strings (property names may be quoted in reasons)",
 			"harness-registered format validators do not quote their input",
